@@ -4,7 +4,7 @@ import torch as tn
 import torchtt
 from common import Case, tt_tokens, dense_tokens, num_str
 from gen import DTYPES, rand_tt, rand_modes, rand_ranks, dense_of, exact_equal, int_tensor
-from util import J, boxed, chk_tt, chk_val
+from util import J, boxed, chk_tt, chk_val, scalar_inexact_cases, sdiv_inexact_cases
 
 LEVEL = "proof"
 RULE = ("structured enumeration: operation (A@x, x@A, A@B, A@dense with 0..3 batch dims, A.t(), TT-matrix +,-,*, scalar ops, full) "
@@ -95,6 +95,8 @@ def one(cases, rng, tier, d, rep, dtname):
                 box, impl = boxed(f)
                 cases.append(Case(J(op, tt_tokens(A), tt_tokens(A2)), impl, chk_tt(box, dn, dt, rk, K, M=M, is_ttm=True), "%s/%s" % (op, tag), nt))
             # scalar operations on operators
+            cases += scalar_inexact_cases(rng, A, dt, tag, 3 if tier == "quick" else 8)
+            cases += sdiv_inexact_cases(rng, A, dt, tag, 1 if tier == "quick" else 4)
             s = rng.choice([2, -3, 2.5, -0.5])
             se = float(s)
             st = [num_str(se)]
